@@ -29,7 +29,7 @@ def gen_cases(rng, tier):
     cases = c03.gen_cases(rng, tier)
     # keep the histories that exercise a copy; top up with the rest
     def has_copy(c):
-        return any(op.name in ("Dup", "Replace", "DcReplace") for op in c["input"].args[2])
+        return any(op.name in ("Dup", "Replace", "DcReplace") for op in c03.hist_parts(c["input"])[3])
     cases.sort(key=lambda c: not has_copy(c))
     for c in cases:
         c["kind"] = "history+copy" if has_copy(c) else "history"
